@@ -383,6 +383,9 @@ def analyse(case, b, results, labels, *, removal=True):
         ppar, bcoef = popt_numbers(r, pk, bk)
         k = PEAK_NPAR[pk] + BKG_NPAR[bk]
         a = r.assessment
+        if not isinstance(a, FitAssessment):
+            raise Violation("assessment-type", f"peak {i}: result.assessment is {a!r}, not a FitAssessment "
+                                               f"(message {r.message!r})")
         labels.append("assess:" + a.name)
         if not isinstance(r.message, str) or not r.message:
             raise Violation("message", f"peak {i}: message {r.message!r}")
